@@ -25,6 +25,8 @@ THEOREMS = [
     "Canopen.C01.readinto_rechunks",
 ]
 FINGERPRINT = [
+    "canopen.objectdictionary:ObjectDictionary.get_variable",
+    "canopen.objectdictionary:ODArray.__getitem__",
     "canopen.sdo.client:SdoClient.request_response",
     "canopen.sdo.client:SdoClient.read_response",
     "canopen.sdo.client:SdoClient.send_request",
@@ -176,6 +178,18 @@ def make_od(odtypes):
         if t == "x":
             continue
         if idx in d:
+            continue
+        if t[0] in "ar":
+            # the entry is declared through an array (member 1 is the template of every sub-index 1..255) or a
+            # record (exactly this member): SdoClient.upload finds its type through ObjectDictionary.get_variable
+            grp = (od.ODArray if t[0] == "a" else od.ODRecord)(f"g{idx}", idx)
+            n0 = od.ODVariable("n", idx, 0)
+            n0.data_type = 0x05
+            grp.add_member(n0)
+            m = od.ODVariable(f"m{idx}", idx, 1 if t[0] == "a" else (sub or 1))
+            m.data_type = int(t[1:])
+            grp.add_member(m)
+            d.add_object(grp)
             continue
         v = od.ODVariable(f"v{idx}", idx, 0)
         v.data_type = None if t == "n" else int(t)
@@ -451,8 +465,8 @@ def oracle(op, out):
                 if expedited and 1 <= len(data) <= 4 and not exp_size:
                     data = data.ljust(4, b"\0")      # e=1, s=0: the frame carries four bytes
                 t = x[3]
-                if mode == "api" and t not in ("x", "n") and int(t) in NUMERIC_BYTES:
-                    data = data[:NUMERIC_BYTES[int(t)]]
+                if mode == "api" and t not in ("x", "n") and int(t.lstrip("ar")) in NUMERIC_BYTES:
+                    data = data[:NUMERIC_BYTES[int(t.lstrip("ar"))]]
                 exp = "ok " + c04.hx(data)
             if r == "err other" and mode[0] == "b" and parse_mode(mode)[0] < 7 and parse_mode(mode)[1] is not None:
                 bs, k = parse_mode(mode)
@@ -585,6 +599,19 @@ def gen_ops(tier, rng):
         if n <= 16:
             for t in ODTYPES:
                 yield finish_op(held, (True, True, True, []), "api", [f"u:{idx}:{sub}:{t}"])
+            if sub >= 1:
+                # the same through an array (template member) and through a record member
+                for t in rng.sample([x for x in ODTYPES if x not in ("x", "n")], 6):
+                    for g in "ar":
+                        yield finish_op(held, (True, True, True, []), "api", [f"u:{idx}:{sub}:{g}{t}"])
+    # entries declared through an array (sub-index >= 2 exists only through the template member) or a record
+    # member, answered with more bytes than the declared type has
+    for sub in (1, 2, 255):
+        for t in [x for x in ODTYPES if x not in ("x", "n")]:
+            for n in (4, 8):
+                data = rand_bytes(rng, n)
+                for g in "ar":
+                    yield finish_op(f"8448.{sub}={c04.hx(data)}", (True, True, True, []), "api", [f"u:8448:{sub}:{g}{t}"])
     yield finish_op("-", default_style, "api", ["u:8192:0:x"])          # nothing held: abort
     # text mode of open(): printable ASCII without line ends (TextIOWrapper translates those by design)
     for n in [0, 1, 3, 4, 5, 7, 8, 14, 20, 64] + ([] if tier == "quick" else [100, 1000]):
